@@ -337,6 +337,34 @@ func (z *zfn) termD(v ssa.Value, d int) lin {
 					}
 				}
 			}
+			// a narrowing conversion of a value that provably fits keeps the value (decided once per instruction)
+			if tb < fb {
+				if keep, done := z.convExact[x]; done {
+					if keep {
+						return z.termD(x.X, d+1)
+					}
+				} else if !z.convBusy[x] {
+					if z.convBusy == nil {
+						z.convBusy = map[*ssa.Convert]bool{}
+						z.convExact = map[*ssa.Convert]bool{}
+					}
+					z.convBusy[x] = true
+					src := z.termD(x.X, d+1)
+					hi := src.clone()
+					if ts {
+						hi.c -= int64(1)<<uint(tb-1) - 1
+					} else {
+						hi.c -= int64(1)<<uint(tb) - 1
+					}
+					lo := src.scale(-1) // src >= 0 (for a signed target the lower bound is more generous than needed)
+					keep, _ := z.prove(x, []lin{hi, lo})
+					z.convBusy[x] = false
+					z.convExact[x] = keep
+					if keep {
+						return src
+					}
+				}
+			}
 			// the same conversion of the same operand is the same value; a same-width sign change is
 			// operand -/+ 2^N·k with k in {0,1}
 			src := z.termD(x.X, d+1)
@@ -394,9 +422,52 @@ func (z *zfn) termD(v ssa.Value, d int) lin {
 					}
 				}
 			}
+			// a 64-bit unsigned sum of two values that are provably below 2^62 does not wrap either
+			if bits, _, _ := z.intBits(x.Type()); bits == 64 {
+				if keep, done := z.addExact[x]; done {
+					if keep {
+						return z.termD(x.X, d+1).plus(z.termD(x.Y, d+1), 1)
+					}
+				} else if !z.addBusy[x] {
+					if z.addBusy == nil {
+						z.addBusy = map[*ssa.BinOp]bool{}
+						z.addExact = map[*ssa.BinOp]bool{}
+					}
+					z.addBusy[x] = true
+					a, b := z.termD(x.X, d+1), z.termD(x.Y, d+1)
+					ga, gb := a.clone(), b.clone()
+					ga.c -= int64(1) << 62
+					gb.c -= int64(1) << 62
+					keep, _ := z.prove(x, []lin{ga, gb})
+					z.addBusy[x] = false
+					z.addExact[x] = keep
+					if keep {
+						return a.plus(b, 1)
+					}
+				}
+			}
 		case token.SUB:
 			if signed {
 				return z.termD(x.X, d+1).plus(z.termD(x.Y, d+1), -1)
+			}
+			// an unsigned difference whose subtrahend is provably not the larger one is the mathematical difference
+			if keep, done := z.addExact[x]; done {
+				if keep {
+					return z.termD(x.X, d+1).plus(z.termD(x.Y, d+1), -1)
+				}
+			} else if !z.addBusy[x] {
+				if z.addBusy == nil {
+					z.addBusy = map[*ssa.BinOp]bool{}
+					z.addExact = map[*ssa.BinOp]bool{}
+				}
+				z.addBusy[x] = true
+				a, b := z.termD(x.X, d+1), z.termD(x.Y, d+1)
+				keep, _ := z.prove(x, []lin{leq(b, a, 0)})
+				z.addBusy[x] = false
+				z.addExact[x] = keep
+				if keep {
+					return a.plus(b, -1)
+				}
 			}
 		case token.MUL:
 			if signed {
@@ -490,6 +561,49 @@ func (z *zfn) termD(v ssa.Value, d int) lin {
 					z.addFact(leq(sl, n, 0), x)
 				} else if ok, _ := z.prove(x, []lin{leq(dl, sl, 0)}); ok {
 					z.addFact(leq(dl, n, 0), x)
+				}
+			}
+			return n
+		case "min", "max":
+			name := z.vname(x)
+			n := z.atom(name, x)
+			if !z.seen[name+"/def"] {
+				z.seen[name+"/def"] = true
+				var ats []lin
+				var ks []int64
+				for _, a := range x.Call.Args {
+					at := z.termD(a, d+1)
+					ats = append(ats, at)
+					ks = append(ks, at.c)
+					if builtinName(&x.Call) == "min" {
+						z.addFact(leq(n, at, 0), x) // min(a…) <= each a
+					} else {
+						z.addFact(leq(at, n, 0), x) // max(a…) >= each a
+					}
+				}
+				// the result is one of the arguments: a constant that bounds every argument from the other side
+				// bounds the result (tried for the constant parts of the arguments)
+				for _, k := range ks {
+					all := true
+					for _, at := range ats {
+						var g lin
+						if builtinName(&x.Call) == "min" {
+							g = leq(linConst(k), at, 0) // k <= arg
+						} else {
+							g = leq(at, linConst(k), 0) // arg <= k
+						}
+						if ok, _ := z.prove(x, []lin{g}); !ok {
+							all = false
+							break
+						}
+					}
+					if all {
+						if builtinName(&x.Call) == "min" {
+							z.addFact(leq(linConst(k), n, 0), x)
+						} else {
+							z.addFact(leq(n, linConst(k), 0), x)
+						}
+					}
 				}
 			}
 			return n
